@@ -63,6 +63,37 @@ def eerr(e):
     if type(e) is cls: return [1, c]
   return [1, 90, estr(type(e).__name__)]
 
+# An exception of the library that no driver expects is an OUTCOME of the case (an error node in the tree, so the
+# correspondence disagrees) and is recorded here; run() turns every record into an oracle hit with a replayable case.
+ESCAPED = []
+def _is_sym(v):
+  try:
+    import pyglove as pg
+    return isinstance(v, pg.Symbolic)
+  except Exception:
+    return False
+def _value_case(v):
+  try:
+    return dict(kind='value', value_tr=epv(plain(v)), sym=_is_sym(v), shown=repr(plain(v))[:300])
+  except Exception:
+    return dict(kind='unencodable', shown=repr(v)[:300])
+def escaped(op, e, case):
+  ESCAPED.append((op, type(e).__name__, str(e)[:120], case))
+  return [1, 98, estr(type(e).__name__)]
+def guarded(op, case_of):
+  """Decorator: the driver never raises; an escaping exception becomes the outcome (1 98 <name>) and is recorded."""
+  def deco(fn):
+    def wrapper(*a, **kw):
+      try:
+        return fn(*a, **kw)
+      except Exception as e:      # noqa: the library may raise anything
+        try: case = case_of(*a, **kw)
+        except Exception: case = dict(kind='unencodable', shown=repr(a)[:300])
+        return escaped(op, e, case)
+    wrapper.__name__ = fn.__name__
+    return wrapper
+  return deco
+
 def key_ok(k):
   if isinstance(k, int): return True
   if not k: return False
@@ -78,6 +109,16 @@ def same_keys(a, b):
   return len(a) == len(b) and all(type(x) is type(y) and x == y for x, y in zip(a, b))
 
 # ---- implementation driver -------------------------------------------------------------------------
+@guarded('path_str', lambda p, preserve: dict(kind='roundtrip', keys=list(p)))
+def impl_format(p, preserve):
+  vl, _ = py()
+  return [0, estr(vl.KeyPath(list(p)).path_str(bool(preserve)))]
+
+@guarded('str', lambda p: dict(kind='roundtrip', keys=list(p)))
+def impl_roundtrip(p):
+  vl, _ = py()
+  return impl_parse(vl.KeyPath(list(p)).path)
+
 def impl_parse(s):
   vl, _ = py()
   try:
@@ -89,7 +130,7 @@ def impl_parse(s):
     if 'invalid literal for int' in m: return [1, 2]
     return [1, 91, estr(m[:40])]
   except Exception as e:
-    return [1, 92, estr(type(e).__name__)]
+    return escaped('parse', e, dict(kind='parse', string=s))
 
 def arg_form(q, rng):
   """The same path as another accepted argument form (KeyPath | printed string | int); equivalent by the round trip."""
@@ -143,7 +184,7 @@ def impl_arith(op, p, q, rng=None):
         return [0, epath(vl.KeyPath(q[0], P).keys)]
       return [0, epath(vl.KeyPath(list(q) if rng is None or rng.random() < 0.5 else tuple(q), P).keys)]
   except Exception as e:
-    return [1, 94, estr(type(e).__name__)]
+    return escaped('arith-op-%d' % op, e, dict(kind='arith', p=list(p), q=list(q)))
   raise ValueError(op)
 
 def impl_set(ops, form_rng=None):
@@ -195,15 +236,16 @@ def impl_lookup(p, v):
   try:
     return [0, epv(vl.KeyPath(list(p)).query(v))]
   except Exception as e:
-    return eerr(e)
+    return eerr(e) if type(e) in ERR else escaped('query', e, _value_case(v))
 
 def impl_exists(p, v):
   vl, _ = py()
   try:
     return [0, int(bool(vl.KeyPath(list(p)).exists(v)))]
   except Exception as e:
-    return eerr(e)
+    return eerr(e) if type(e) in ERR else escaped('exists', e, _value_case(v))
 
+@guarded('utils.traverse', lambda v, *a, **kw: _value_case(v))
 def impl_traverse(v, root, stop_pre, stop_post):
   vl, hi = py()
   log = []
@@ -224,6 +266,7 @@ def act_of(acts, keys):
       return [A.STOP, A.ENTER, A.CONTINUE][a]
   return A.ENTER
 
+@guarded('pg.traverse', lambda v, *a, **kw: _value_case(v))
 def impl_pg_traverse(v, pre_acts, post_acts, parents=None):
   import pyglove as pg
   log = []
@@ -257,11 +300,13 @@ def sel_fn(sel):
 def esel(sel):
   return [0, [epath(p) for p in sel[1]]] if sel[0] == 0 else [sel[0]]
 
+@guarded('pg.query', lambda v, *a, **kw: _value_case(v))
 def impl_pg_query(v, sel, es):
   import pyglove as pg
   res = pg.query(v, custom_selector=sel_fn(sel), enter_selected=bool(es))
   return [[estr(k), epv(plain(x))] for k, x in res.items()]
 
+@guarded('flatten', lambda fck, v: _value_case(v))
 def impl_flatten(fck, v):
   _, hi = py()
   return epv(hi.flatten(copy.deepcopy(v), bool(fck)))
@@ -278,7 +323,7 @@ def impl_canon_flatten(fck, sp, v):
   try:
     return [0, epv(hi.canonicalize(hi.flatten(copy.deepcopy(v), bool(fck)), bool(sp)))]
   except Exception as e:
-    return eerr(e)
+    return eerr(e) if type(e) in ERR else escaped('canonicalize(flatten)', e, _value_case(v))
 
 def impl_merge(d, s):
   _, hi = py()
@@ -325,13 +370,22 @@ def gen_path(rng, ok_only=False, maxlen=6):
     n = rng.choice([8, 9, 12, 17, 33])       # long paths
   return [gen_key(rng, ok_only) for _ in range(n)]
 
+def ref_path_str(keys, preserve=True):
+  """Printing of a path written independently of the library (used by generators only)."""
+  out = []
+  for i, k in enumerate(keys):
+    if isinstance(k, str) and not (preserve and any(c in k for c in '.[]')):
+      out.append(('.' if i else '') + k)
+    else:
+      out.append('[%s]' % (k,))
+  return ''.join(out)
+
 def gen_path_string(rng):
-  vl, _ = py()
   r = rng.random()
   if r < 0.35:
-    return vl.KeyPath(gen_path(rng)).path_str(rng.random() < 0.8)
+    return ref_path_str(gen_path(rng), rng.random() < 0.8)
   if r < 0.70:
-    s = list(vl.KeyPath(gen_path(rng)).path)
+    s = list(ref_path_str(gen_path(rng)))
     for _ in range(rng.randint(1, 2)):
       k = rng.randrange(3)
       if k == 0 and s: del s[rng.randrange(len(s))]
@@ -404,7 +458,26 @@ def gen_value(rng, depth, int_keys=0.15):
     k = gen_key(rng, ok_only=True, p_int=int_keys)
     if isinstance(k, int) and abs(k) > 1000: k = 5
     d[k] = gen_value(rng, depth - 1 if not wide else min(depth - 1, 1), int_keys)
+  if rng.random() < 0.15:
+    add_decoy(rng, d)
   return d
+
+def add_decoy(rng, d):
+  """Puts into dict d a key with a delimiter next to the entries its split form would address, so that a
+  traversal / lookup that splits the key lands on a different, existing node instead of merely failing."""
+  a = rng.choice(['a', 'lr', 'x', '0', 'é'])
+  b = rng.choice(['b', 'decay', '0', '-1'])
+  form = rng.randrange(6)
+  tag = rng.randint(100, 999)
+  if form == 0:   items = [(a + '.' + b, tag), (a, {b: tag + 1})]
+  elif form == 1: items = [(a + '[0]', tag), (a, [tag + 1, tag + 2])]
+  elif form == 2: items = [('[1]', tag), (1, tag + 1)]
+  elif form == 3: items = [(a + '.' + b + '.c', {'k': tag}), (a, {b: {'c': {'k': tag + 1}}})]
+  elif form == 4: items = [(a + '[' + b + ']', [tag]), (a, {b: [tag + 1]})]
+  else:           items = [('[' + a + '.' + b + ']', tag), (a + '.' + b, tag + 1), (a, {b: tag + 2})]
+  if rng.random() < 0.5: items.reverse()
+  for k, x in items:
+    d[k] = x
 
 def nodes_of(v, path=()):
   """Independent enumeration of (path, node) in pre-order."""
@@ -888,7 +961,8 @@ def check_digit_table(ctx):
 
 # ---- corpus: minimised cases kept from earlier failures (always run first) ---------------------------------
 CORPUS_ORDER = [([2], [10], ['15']), ([0], ['0'], [1]), (['a', 1], ['a', 'b'], ['a', 10]), ([10], ['9'], [9])]
-CORPUS_VALUES = [{1: 'a'}, {5: {7: 'x'}}, {'a': {3: [1, {2: 'y'}]}}, {'a': [{'c': [1, 2]}, {'d': {'g': 3}}], 'b.c': 'foo', '[0]': {}, '0': []},
+CORPUS_VALUES = [{'lr.decay': 1, 'lr': {'decay': 2}}, {'cfg': {'opt[0]': 1, 'opt': [2]}}, {'[0]': 'a', 0: 'b'}, [{'a.b': {'c': 1}, 'a': {'b': {'c': 2}}}],
+                 {1: 'a'}, {5: {7: 'x'}}, {'a': {3: [1, {2: 'y'}]}}, {'a': [{'c': [1, 2]}, {'d': {'g': 3}}], 'b.c': 'foo', '[0]': {}, '0': []},
                  {'$': {'x.y': [[], {}]}}, [[1, 2], [3]], {'a': {'0': 1, '-1': 2}}, {-1: 'a', 'k': 0}]
 CORPUS_SETS = [DOLLAR_WITNESS,
                [[4, 0, 0, 0, ['a'], 0], [14, 0, 0, 0, [], 0], [13, 0, 1, 0, [], 0]],
@@ -902,6 +976,7 @@ def nontrivial_keys(keys):
 def run(ctx):
   vl, hi = py()
   K = vl.KeyPath
+  del ESCAPED[:]
   tab_ok = check_digit_table(ctx)
   ctx.build()
   if not tab_ok and ctx.discharged:
@@ -931,11 +1006,12 @@ def run(ctx):
     for k in p: ctx.hist('key_kinds', key_kind(k) + ('' if key_ok(k) else ' (not key_ok)'))
     ctx.hist('path_lengths', len(p))
     preserve = 1 if rng.random() < 0.8 else 0
-    add([0, preserve, epath(p)], [0, estr(K(list(p)).path_str(bool(preserve)))], 'format', nontrivial_keys(p), dict(op='path_str', keys=p, preserve_complex_keys=bool(preserve)))
-    add([2, epath(p)], impl_parse(K(list(p)).path), 'roundtrip', nontrivial_keys(p), dict(op='parse(str(p))', keys=p, key_ok=ok))
+    add([0, preserve, epath(p)], impl_format(p, preserve), 'format', nontrivial_keys(p), dict(op='path_str', keys=p, preserve_complex_keys=bool(preserve)))
+    add([2, epath(p)], impl_roundtrip(p), 'roundtrip', nontrivial_keys(p), dict(op='parse(str(p))', keys=p, key_ok=ok))
     oracle_jobs.append((oracle_roundtrip, (p,)))
     if ok:
-      s = K(list(p)).path
+      try: s = K(list(p)).path
+      except Exception: continue            # already recorded by impl_format / impl_roundtrip
       if s in seen_fmt and not same_keys(seen_fmt[s], p):
         ctx.hit('C10/injective/format', 'two different key lists print the same: %r and %r -> %r' % (seen_fmt[s], p, s), dict(kind='arith', p=seen_fmt[s], q=p))
       seen_fmt[s] = p
@@ -960,7 +1036,7 @@ def run(ctx):
   for n in range(3):
     for tup in itertools.product(KS, repeat=n):
       p = list(tup)
-      add([2, epath(p)], impl_parse(K(p).path), 'roundtrip(exhaustive)', n >= 1, dict(op='parse(str(p))', keys=p))
+      add([2, epath(p)], impl_roundtrip(p), 'roundtrip(exhaustive)', n >= 1, dict(op='parse(str(p))', keys=p))
       oracle_jobs.append((oracle_roundtrip, (p,)))
       n_kl += 1
   ctx.extra['exhaustive_small_scope'] = dict(exhaustive=True, parse_strings=n_ex, alphabet=''.join(SM), max_length=maxlen,
@@ -1072,25 +1148,50 @@ def run(ctx):
   n_or = 0
   for fn, args in oracle_jobs:
     n_or += 1
-    for sig, what, case in fn(*args):
+    try:
+      found = fn(*args)
+    except Exception as e:     # the oracle touches the library: an exception it does not expect is a failure of the property's observables
+      found = [('C10/%s/raises-%s' % (fn.__name__.replace('oracle_', ''), type(e).__name__),
+                'evaluating the property on %r raised %s: %s' % (tuple(repr(a)[:120] for a in args), type(e).__name__, str(e)[:120]),
+                oracle_case(fn, args))]
+    for sig, what, case in found:
       ctx.hit(sig, what, case)
   ctx.extra['oracle_evaluations'] = n_or
+  # library exceptions that no driver expects: each is a failing input of its own
+  ctx.extra['unexpected_library_exceptions'] = len(ESCAPED)
+  for op, exc, msg, case in ESCAPED:
+    ctx.hit('C10/%s/raises-%s' % (op, exc), '%s raised %s: %s on an input of the property (%s)' % (op, exc, msg, case.get('shown', case)), case)
   # targeted search when something no longer checks and nothing failed yet
   if ctx.is_broken() and not ctx.hits:
     ctx.log('searching for a failing input ...')
-    for _ in range(ctx.scale(4000, 20000)):
-      p = gen_path(rng, ok_only=True)
-      for sig, what, case in oracle_roundtrip(p): ctx.hit(sig, what, case)
-      a, b, c = gen_path(rng, maxlen=3), gen_path(rng, maxlen=3), gen_path(rng, maxlen=3)
-      for sig, what, case in oracle_arith(a, b) + oracle_order(a, b, c): ctx.hit(sig, what, case)
-      for sig, what, case in oracle_set(gen_set_ops(rng)): ctx.hit(sig, what, case)
-      v = gen_value(rng, 3, 0.3)
-      for sig, what, case in oracle_value(v): ctx.hit(sig, what, case)
+    def safely(fn, *args):
       try:
-        for sig, what, case in oracle_value(to_sym(copy.deepcopy(v)), True): ctx.hit(sig, what, case)
+        found = fn(*args)
+      except Exception as e:
+        found = [('C10/%s/raises-%s' % (fn.__name__.replace('oracle_', ''), type(e).__name__), 'raised %s: %s' % (type(e).__name__, str(e)[:120]), oracle_case(fn, args))]
+      for sig, what, case in found: ctx.hit(sig, what, case)
+    for _ in range(ctx.scale(4000, 20000)):
+      safely(oracle_roundtrip, gen_path(rng, ok_only=True))
+      a, b, c = gen_path(rng, maxlen=3), gen_path(rng, maxlen=3), gen_path(rng, maxlen=3)
+      safely(oracle_arith, a, b); safely(oracle_order, a, b, c)
+      safely(oracle_set, gen_set_ops(rng))
+      v = gen_value(rng, 3, 0.3)
+      safely(oracle_value, v, False)
+      try:
+        sv = to_sym(copy.deepcopy(v))
       except Exception:
-        pass
+        sv = None
+      if sv is not None: safely(oracle_value, sv, True)
       if len(ctx.hits) >= 3: break
+
+def oracle_case(fn, args):
+  n = fn.__name__
+  if n == 'oracle_roundtrip': return dict(kind='roundtrip', keys=list(args[0]))
+  if n == 'oracle_arith': return dict(kind='arith', p=list(args[0]), q=list(args[1]))
+  if n == 'oracle_order': return dict(kind='order', a=list(args[0]), b=list(args[1]), c=list(args[2]))
+  if n == 'oracle_set': return dict(kind='set', ops=args[0])
+  if n == 'oracle_objects': return dict(kind='objects', value_tr=epv(args[0]))
+  return _value_case(args[0])
 
 def replay(ctx, rp):
   c = rp['case']
@@ -1099,10 +1200,17 @@ def replay(ctx, rp):
   elif k == 'arith': hits = oracle_arith(c['p'], c['q'])
   elif k == 'order': hits = oracle_order(c['a'], c['b'], c['c'])
   elif k == 'set': hits = oracle_set(c['ops'])
+  elif k == 'parse':
+    out = impl_parse(c['string'])
+    hits = [('C10/parse/raises', 'parse(%r) raises an unexpected exception' % c['string'], c)] if out[:2] == [1, 98] else []
   elif k == 'objects': hits = oracle_objects(dpv(c['value_tr']))
   elif k == 'value':
     v = dpv(c['value_tr'])
-    hits = oracle_value(to_sym(v) if c.get('sym') else v, bool(c.get('sym')))
+    x = to_sym(v) if c.get('sym') else v
+    hits = oracle_value(x, bool(c.get('sym')))
+    del ESCAPED[:]
+    impl_traverse(x, [], None, None); impl_pg_traverse(x, [], []); impl_pg_query(x, (3,), 1); impl_flatten(0, plain(x)); impl_canon_flatten(0, 1, plain(x))
+    hits += [('C10/%s/raises-%s' % (op, exc), msg, case) for op, exc, msg, case in ESCAPED]
   else:
     raise ValueError('unknown replay kind %r' % k)
   for h in hits:
